@@ -306,3 +306,39 @@ def _tie(ctx, desc):
     if bool(s.all()) != exp or bool(s.any()) != exp:
         ctx.violation(f"{cls}.tie.{'at_threshold_must_spike' if off == 0 else 'one_ulp_off_threshold'}",
                       f"integrated voltage = threshold{'+' if off > 0 else ''}{off if off else ''}: spikes={s.tolist()}", desc)
+
+
+_SUITE = {"steps": 0, "bad": []}
+
+
+def run_suite(ctx):
+    """the repository's neuron / layer tests with I1-I3 asserted on every forward of the 8 neuron classes"""
+    from rv import suite
+
+    for cname in CLASSES:
+        cls = getattr(neural, cname)
+        orig = cls.forward
+
+        def forward(self, inputs, *a, _orig=orig, _cname=cname, **k):
+            r0 = self.refrac.detach().clone()
+            out = _orig(self, inputs, *a, **k)
+            _SUITE["steps"] += 1
+            try:
+                rdec = (r0 - self.dt).clamp(min=0)
+                if bool((self.refrac < 0).any()):
+                    _SUITE["bad"].append((_cname, "I1.negative_refractory_time"))
+                if bool((out & (rdec != 0)).any()):
+                    _SUITE["bad"].append((_cname, "I3.spike_while_refractory"))
+                if float(self.refrac_t) != 0 and not bool(torch.equal(self.spike, out)):
+                    _SUITE["bad"].append((_cname, "I2.spike_attribute_ne_returned"))
+            except Exception:  # noqa: BLE001  tests that hand-set exotic state
+                pass
+            return out
+
+        cls.forward = forward
+    suite.run_tests(ctx, ["neural/test_neurons.py", "neural/test_layers.py", "learn"])
+    ctx.counters["suite_neuron_steps"] = _SUITE["steps"]
+    ctx.case("suite/test_neurons+test_layers+learn")
+    ctx.case("suite/invariants=I1,I2,I3")
+    for cname, mech in sorted(set(_SUITE["bad"])):
+        ctx.violation(f"suite.{cname}.{mech}", "invariant broken while the repository's tests ran", {"kind": "suite"})
